@@ -554,6 +554,28 @@ def _verify_geometry(where, imp, g, entry, info, frame, model, ctx, stats):
             got = (m.filter_node_set(name) if typ == "n" else m.filter_element_set(name)).to_frame()
             keep = np.isin(exp_n if typ == "n" else exp_e, np.array(ids, dtype=np.int64))
             _cmp_index(got.index, exp_e[keep], exp_n[keep], "%s: filter_%s_set(%r) on %r" % (where, "node" if typ == "n" else "element", name, g))
+    shared = sorted(set(by_type["n"]) & set(by_type["e"]))
+    if shared:
+        # a node set and an element set with the same name: both filters through ONE held importer, in both orders
+        # (node -> element on the importer used so far, element -> node -> element on a second one)
+        ctx.label("sets:same_name_node_and_element")
+
+        def _filtered(im, typ, name):
+            m = im.make_mesh(g)
+            got = (m.filter_node_set(name) if typ == "n" else m.filter_element_set(name)).to_frame()
+            keep = np.isin(exp_n if typ == "n" else exp_e, np.array(by_type[typ][name], dtype=np.int64))
+            _cmp_index(got.index, exp_e[keep], exp_n[keep], "%s: filter_%s_set(%r) on %r after filtering by the %s set of the same "
+                       "name through the same importer" % (where, "node" if typ == "n" else "element", name, g,
+                                                           "element" if typ == "n" else "node"))
+        imp2 = type(imp)(imp._file.filename)
+        try:
+            for name in shared:
+                for typ in ("n", "e", "n"):
+                    _filtered(imp, typ, name)
+                for typ in ("e", "n", "e"):
+                    _filtered(imp2, typ, name)
+        finally:
+            imp2._file.close()
     if sets and with_coords:
         # filter first, join afterwards: the last set
         typ, name, ids = sets[-1]
@@ -696,6 +718,7 @@ class _Belief:
         self.vars = set()    # (state, geom, var)
         self.nset = 0
         self.unnamed = set()
+        self.setnames = {}   # (geom, type) -> names of the sets added so far
 
 
 def _draw_set(draw, b, ops, how):
@@ -707,6 +730,9 @@ def _draw_set(draw, b, ops, how):
         mi = b.geoms[g]
     ms = b.meshes[mi]
     typ = draw(st.sampled_from(["n", "e"]))
+    if draw(st.integers(0, 2)) and len(b.setnames.get((g, "n"), [])) != len(b.setnames.get((g, "e"), [])):
+        # prefer the type the geometry has fewer sets of, so that name collisions across the types become possible
+        typ = "n" if len(b.setnames.get((g, "n"), [])) < len(b.setnames.get((g, "e"), [])) else "e"
     members = sorted(set(r[1] for r in ms["rows"])) if typ == "n" else sorted(set(r[0] for r in ms["rows"]))
     pick = draw(st.integers(0, 9))
     if pick == 0:
@@ -724,6 +750,13 @@ def _draw_set(draw, b, ops, how):
     if draw(st.integers(0, 9)) == 0 and (g, typ) not in b.unnamed and how == "ok":
         name = None
         b.unnamed.add((g, typ))
+    # on purpose: a node set and an element set of one geometry with the SAME name (separate name spaces in the file,
+    # common in FE exports: 'ALL', 'LOAD'); about every third set that could collide does
+    other = [n for n in b.setnames.get((g, "e" if typ == "n" else "n"), []) if n not in b.setnames.get((g, typ), [])]
+    if how == "ok" and other and draw(st.integers(0, 2)) == 2:
+        name = draw(st.sampled_from(other))
+    if how == "ok":
+        b.setnames.setdefault((g, typ), []).append(name)
     ops.append({"op": "set", "geom": g, "type": typ, "ids": ids, "name": name, "mesh": mi})
 
 
@@ -823,7 +856,7 @@ def _draw_geom(draw, tier, b, ops, how, name=None, max_elements=None):
 _WEIGHTS = {
     # (kind, how): weight
     "history": [("geom", "ok", 5), ("geom", "dup", 1), ("geom", "count", 1), ("geom", "x", 1), ("geom", "not_frame", 1),
-                ("set", "ok", 4), ("set", "notsubset", 1), ("set", "nogeom", 1),
+                ("set", "ok", 6), ("set", "notsubset", 1), ("set", "nogeom", 1),
                 ("var", "ok", 8), ("var", "dup", 1), ("var", "missing_column", 2), ("var", "no_columns", 1),
                 ("var", "no_location", 1), ("var", "bad_location", 1), ("var", "nogeom", 1)],
     "rollback": [("geom", "ok", 2), ("geom", "dup", 2), ("geom", "count", 3), ("geom", "y", 1), ("geom", "x", 1), ("geom", "not_frame", 1),
